@@ -13,7 +13,26 @@ _FULL_NOSLEEP = "d1 w1 - w2 - w2 - - -"
 _LEFTOVERS = "d1 - c1.5 - w3 - e - c5.7"    # stale temp files of earlier kills
 _LEFTOVERS2 = "d1 w1 e w2 c3.64 - w2 w5 e"
 
+_BIG = 4938271561                            # sleep tag whose JSON is 9 bytes longer than that of tag 5 (command_seq 1234567890)
+_STALE_LONG = "d1 w1 - w2 - w2 - w9 w%d" % _BIG     # an earlier LONG save died between its temp write and the rename
+_STALE_JUNK = "d1 - J - J - J w5 J"          # stale temp files longer than anything that will be written
+
+# Multi-process chains: process 1 is killed at every point of `first` (started in `state`); from every state it left
+# behind process 2 performs `then` (killed at every point, and running to completion); process 3 starts and must
+# load exactly the last completed value. Lengths: long -> short (always) and short -> long.
+CHAINS_QUICK = [
+    ("persist %d" % _BIG, _FULL, ["persist 5"]),
+]
+CHAINS_THOROUGH = CHAINS_QUICK + [
+    ("persist %d" % _BIG, _FULL, ["persistseq 5 %d 6" % _BIG, "startpersist 1"]),
+    ("persist 5", "d1 w1 - w2 - w2 - w%d -" % _BIG, ["persist %d" % _BIG, "persist 2"]),
+    ("persistseq %d 5 %d" % (_BIG, _BIG), _FULL_NOSLEEP, ["persist 6"]),
+    ("start", _EMPTY, ["start", "storeid 3"]),
+]
+
 SCENARIOS_QUICK = [
+    "persist 5 " + _STALE_LONG,               # long -> short over a stale temp file (always present)
+    "start " + _STALE_JUNK,
     "start " + _EMPTY,
     "start " + _KEYNOPUB,
     "start " + _LEFTOVERS,
@@ -110,11 +129,32 @@ def extra(c):
 
     lines, outs = [], []
     complete = True
+    chains = CHAINS_THOROUGH if c.tier == "thorough" else CHAINS_QUICK
     with ThreadPoolExecutor(max_workers=8) as ex:
         for ls, os_, done in ex.map(sweep, [(sc, cls) for sc in scen for cls in CLASSES]):
             lines += ls
             outs += os_
             complete = complete and done
+        # multi-process chains: second level starts from what the kills of the first level really left
+        chain_states = 0
+        for first, state, thens in chains:
+            left = set()
+            for ls, os_, done in ex.map(sweep, [(first + " " + state, cls) for cls in CLASSES]):
+                lines += ls
+                outs += os_
+                complete = complete and done
+                for o in os_:
+                    if o.startswith(("killed ", "clean ")):
+                        s1 = o.split(" ; ")[0].split(" ", 1)[1]
+                        if "unexpected" not in s1 and len(s1.split()) == 9:
+                            left.add(s1)
+            chain_states += len(left)
+            jobs = [(t + " " + s1, cls) for s1 in sorted(left) for t in thens for cls in ("open", "write", "rename", "close")]
+            for ls, os_, done in ex.map(sweep, jobs):
+                lines += ls
+                outs += os_
+                complete = complete and done
+        c.p.setdefault("extra_coverage", {})["chain_intermediate_states"] = chain_states
     bad_run = [(l, o) for l, o in zip(lines, outs) if not o.startswith(("killed ", "clean "))]
     c.oblige("crash-enumeration-ran-to-clean-exit", "tie", complete and not bad_run,
              "" if complete and not bad_run else "enumeration incomplete: " + repr(bad_run[:2]))
@@ -158,6 +198,7 @@ def extra(c):
         "unreadable / permission-denied data directory and other I/O errors: not generated (the checks run as root; errors other than ENOENT are outside the crash model)",
         "missing data directory: generated (d0 states; saves fail without creating anything)",
         "second and later saves of one process, stale temp files of earlier kills, start followed by a save: real kills (persistseq / startpersist / leftover scenarios)",
+        "multi-process chains (process 1 killed at every point, process 2 saves a value of a different rendered length from each state really left behind, killed or completing, process 3 starts): real kills; long->short always present",
     ]
 
 
